@@ -95,6 +95,12 @@ class SqliteImpl(SqlImpl):
 
 with SqliteImpl.impl_store.impl_manager as impl:
 
+    @impl(ops.sub, Datetime(), Datetime())
+    @impl(ops.sub, Date(), Date())
+    def _sub_temporal(x, y):
+        # SQLite stores dates as text: `-` would subtract the leading numbers of the two strings
+        raise NotSupportedError("SQLite does not support the difference of two dates / datetimes (no `Duration` type)")
+
     @impl(ops.round)
     def _round(x, decimals):
         if decimals >= 0:
